@@ -1095,7 +1095,19 @@ def run_consumer(buf, mx, part, start, highwater, act=None):
         cons._handle_fetch_response([FetchResponse("t", 0, 0, highwater, C._decode_message_set_iter(part))])
     except Exception as e:  # noqa: BLE001 - an escaping exception is an observation, not a harness crash
         raised = type(e).__name__
-    return {"raised": raised, "delivered": delivered, "failed": failed, "new_b": "fail" if failed else str(cons.buffer_size), "after": cons._fetch_offset, "scheduled": len(clock.getDelayedCalls()), "reentry": reentry, "running": cons._start_d is not None}
+    scheduled = len(clock.getDelayedCalls())
+    # let the scheduled refetch happen (callLater(0, _do_fetch)) and read the FetchRequest the Consumer really
+    # hands to its client: refetchOk is then about the next request EMITTED, not about private attributes
+    emitted, emit_err = [], None
+    try:
+        clock.advance(0)
+        for call in cons.client.send_fetch_request.call_args_list:
+            for rq in call.args[0]:
+                emitted.append((rq.topic, rq.partition, int(rq.offset), int(rq.max_bytes)))
+    except Exception as e:  # noqa: BLE001
+        emit_err = type(e).__name__
+    return {"raised": raised, "delivered": delivered, "failed": failed, "new_b": "fail" if failed else str(cons.buffer_size), "after": cons._fetch_offset, "scheduled": scheduled,
+            "reentry": reentry, "running": cons._start_d is not None, "emitted": emitted, "emit_err": emit_err}
 
 
 def grow_cases(ctx, res, n):
@@ -1139,6 +1151,17 @@ def grow_cases(ctx, res, n):
             continue
         if delivered != offs[:k]:
             res.monitor_failures.append({"what": "the consumer's processor did not receive exactly the complete messages of a set cut short", "scenario": dict(sc, delivered=delivered, expected=offs[:k]), "tags": ["truncated-delivery-wrong"]})
+
+        em = g_.get("emitted") or []
+        if not failed and g_["running"] and scheduled == 1 and not g_["raised"]:
+            res.count("grow_next_fetch_request_emitted=%d" % len(em))
+            if len(em) != 1 or em[0][:2] != ("t", 0) or g_.get("emit_err"):
+                res.monitor_failures.append({"what": "the refetch scheduled after a fetch response did not hand exactly one FetchRequest for the partition to the client", "scenario": dict(sc, emitted=em, error=g_.get("emit_err")), "tags": ["refetch-not-emitted"]})
+            else:
+                if (em[0][2], str(em[0][3])) != (after, new_b):
+                    res.count("grow_emitted_request_differs_from_private_state")
+                # judged: the request the client is handed (offset, max_bytes)
+                after, new_b = em[0][2], str(em[0][3])
 
         def mon(l, g, sc=sc, new_b=new_b, after=after):
             if g != ["ok"]:
@@ -1396,7 +1419,8 @@ def run(ctx, res):
         run_sharded(ctx, res)
     else:
         sections(ctx, res, 1.0, corpus=True)
-    res.notes.append("real time and peak allocation are recorded under cost_evidence / worst_seconds_per_byte / alloc_by_size as evidence only; they are not compared")
+    res.notes.append("real time and peak allocation of the Kafka-level decoders are recorded under cost_evidence / worst_seconds_per_byte / alloc_by_size as evidence only; "
+                     "the real peak allocation of afkak.codec.gzip_decode (alone and under decode_fetch_response + iteration) on hostile gzip members IS compared with a linear bound (gzip_alloc_*)")
 
 
 def sections(ctx, res, f, corpus):
@@ -1405,27 +1429,37 @@ def sections(ctx, res, f, corpus):
     def n(q, t):
         return max(1, int(ctx.scale(q, t) * f))
 
+    # a stage that trips over an implementation which no longer offers what it drives is a broken
+    # correspondence (exit 1, the other stages still run), not a crash of the check
+    from harness.lib.xl5_guard import guarded as G
+
     with Instr() as instr:
         if corpus:
-            run_corpus(ctx, res, instr)
-            cost_evidence(ctx, res, instr)
-            alloc_evidence(ctx, res, instr)
-            scaling_cases(ctx, res, instr)
-        crc_cases(ctx, res, n(300, 3000))
-        msgset_cases(ctx, res, instr, n(600, 8000))
-        burst_cases(ctx, res, instr, n_msgs=n(6, 24), exhaustive_span=ctx.scale(8, 11), per_span=ctx.scale(2, 6), sampled_large=n(20, 150))
-        trunc_cases(ctx, res, instr, n_sets=n(100, 1200), every_cut_below=ctx.scale(400, 1500), sampled_cuts=ctx.scale(20, 100))
-        trunc_wrapped_cases(ctx, res, instr, n_sets=n(40, 500))
-        fetch_trunc_cases(ctx, res, instr, n(400, 6000))
-        hostile_cases(ctx, res, instr, per_decoder=n(40, 500), random_per_decoder=n(300, 4000))
-    grow_cases(ctx, res, n(1500, 20000))
+            G(res, "crc/corpus", run_corpus, ctx, res, instr)
+            G(res, "crc/cost-evidence", cost_evidence, ctx, res, instr)
+            G(res, "crc/alloc-evidence", alloc_evidence, ctx, res, instr)
+            G(res, "crc/scaling", scaling_cases, ctx, res, instr)
+        G(res, "crc/crc", crc_cases, ctx, res, n(300, 3000))
+        G(res, "crc/msgset", msgset_cases, ctx, res, instr, n(600, 8000))
+        G(res, "crc/burst", burst_cases, ctx, res, instr, n_msgs=n(6, 24), exhaustive_span=ctx.scale(8, 11), per_span=ctx.scale(2, 6), sampled_large=n(20, 150))
+        G(res, "crc/trunc", trunc_cases, ctx, res, instr, n_sets=n(100, 1200), every_cut_below=ctx.scale(400, 1500), sampled_cuts=ctx.scale(20, 100))
+        G(res, "crc/trunc-wrapped", trunc_wrapped_cases, ctx, res, instr, n_sets=n(40, 500))
+        G(res, "crc/fetch-trunc", fetch_trunc_cases, ctx, res, instr, n(400, 6000))
+        G(res, "crc/hostile", hostile_cases, ctx, res, instr, per_decoder=n(40, 500), random_per_decoder=n(300, 4000))
+    G(res, "crc/grow", grow_cases, ctx, res, n(1500, 20000))
     if corpus:
         # real Consumer over the real KafkaClient over the simulated cluster, a log holding a message
         # larger than buffer_size: the buffer must grow by the rule and every message be delivered
         # (the fetch-size-too-small signal has to reach the CONSUMER's iteration through the client)
         from harness.lib import consumer_fullstack
 
-        consumer_fullstack.growth_stage(ctx, res, "C12", ctx.scale(25, 40))
+        G(res, "crc/consumer-growth", consumer_fullstack.growth_stage, ctx, res, "C12", ctx.scale(25, 40))
+        # the REAL gzip decoder (a parameter of the model) on hostile gzip members inside messages with
+        # a valid CRC: real peak allocation (tracemalloc) against a bound linear in input + inflated bytes
+        from harness.lib import xl5_gzip
+        from harness.lib.xl5_guard import guarded
+
+        guarded(res, "crc/gzip-alloc", xl5_gzip.stage, ctx, res, ctx.scale(500, 6000))
 
 
 SHARDS = 16
@@ -1515,6 +1549,10 @@ def search(ctx, res, broken):
     from harness.lib import consumer_fullstack
 
     consumer_fullstack.growth_stage(ctx, r2, "C12", ctx.scale(40, 300))
+    if not r2.monitor_failures:
+        from harness.lib import xl5_gzip
+
+        xl5_gzip.stage(ctx, r2, ctx.scale(1500, 10000))
     return r2.monitor_failures[:3]
 
 
@@ -1524,6 +1562,12 @@ def replay(ctx, data):
         from harness.lib import consumer_check
 
         return consumer_check.replay(ctx, data, "C12")
+    if isinstance(f.get("scenario"), dict) and f["scenario"].get("xl5") == "c12-gzip":
+        from harness.lib import xl5_gzip
+
+        rc = xl5_gzip.replay(ctx, f["scenario"])
+        print("VIOLATION property=C12 replay=(this file)" if rc else "scenario passes on the current tree")
+        return rc
     nlc = (data.get("no_longer_checks") or [{}])[0].get("what", {})
     sc = f.get("scenario") or (nlc.get("scenario") if isinstance(nlc, dict) else None) or data.get("scenario") or (data if "kind" in data else {})
     print("replay scenario:", json.dumps(sc)[:2000])
